@@ -904,7 +904,7 @@ def _split_sweeps(
     label: str,
 ) -> List[DataSet]:
     data_sets: List[DataSet] = []
-    decreasing_f: bool = frequency[0] > frequency[1]
+    decreasing_f: bool = len(frequency) > 1 and frequency[0] > frequency[1]
 
     while frequency:
         i: int = 1
